@@ -85,6 +85,14 @@ pub struct BuiltSpec {
     /// key and value; an empty value must leave no trace in the built PURL.
     #[serde(default)]
     pub direct_qualifier: Option<(String, String)>,
+    /// Last step before `build()`: the value of the i-th qualifier then present (modulo) is
+    /// overwritten IN PLACE through one of the `&mut SmallString` the collection hands out (path
+    /// 0-7: `get_mut`, `IndexMut`, `iter_mut`, `OccupiedEntry::get_mut`, `Entry::and_modify`, the
+    /// reference returned by `insert`, `OccupiedEntry::into_mut`, `&mut Qualifiers` as an iterator).
+    /// A value that went through such an edit must round-trip like any other (r12c16-1: a length
+    /// counter that takes part in `==` and goes stale on exactly these paths).
+    #[serde(default)]
+    pub edit_in_place: Option<(usize, usize, String)>,
 }
 
 #[derive(Clone, Debug, PartialEq, Eq, Serialize, Deserialize)]
@@ -835,6 +843,58 @@ where
                 if let Some((k, v)) = &b.direct_qualifier {
                     let _ = builder.parts.qualifiers.insert(k.as_str(), v.as_str());
                 }
+                if let Some((i, path, v)) = &b.edit_in_place {
+                    let n = builder.parts.qualifiers.len();
+                    let key = if n == 0 { None } else { builder.parts.qualifiers.iter().nth(i % n).map(|(k, _)| k.as_str().to_owned()) };
+                    if let Some(key) = key {
+                        let q = &mut builder.parts.qualifiers;
+                        let key = key.as_str();
+                        let edited = guarded(|| match path % 8 {
+                            0 => {
+                                if let Some(r) = q.get_mut(key) {
+                                    *r = v.as_str().into();
+                                }
+                            },
+                            1 => q[key] = v.as_str().into(),
+                            2 => {
+                                for (k, r) in q.iter_mut() {
+                                    if k == key {
+                                        *r = v.as_str().into();
+                                    }
+                                }
+                            },
+                            3 => {
+                                if let Ok(purl::qualifiers::Entry::Occupied(mut o)) = q.entry(key) {
+                                    *o.get_mut() = v.as_str().into();
+                                }
+                            },
+                            4 => {
+                                if let Ok(e) = q.entry(key) {
+                                    let _ = e.and_modify(|r| *r = v.as_str().into());
+                                }
+                            },
+                            5 => {
+                                let old = q.get(key).unwrap_or("").to_owned();
+                                if let Ok(r) = q.insert(key, old.as_str()) {
+                                    *r = v.as_str().into();
+                                }
+                            },
+                            6 => {
+                                if let Ok(purl::qualifiers::Entry::Occupied(o)) = q.entry(key) {
+                                    *o.into_mut() = v.as_str().into();
+                                }
+                            },
+                            _ => {
+                                for (k, r) in &mut *q {
+                                    if k == key {
+                                        *r = v.as_str().into();
+                                    }
+                                }
+                            },
+                        });
+                        edited.map_err(|p| violation!("C16.panic_in_build", "editing qualifier {key:?} of {b:?} in place panicked: {p}"))?;
+                    }
+                }
                 let built = guarded(move || builder.build().ok()).map_err(|p| violation!("C16.panic_in_build", "building {b:?} panicked: {p}"))?;
                 let Some(p) = built else { continue };
                 let canon = guarded(|| p.clone().to_string()).map_err(|e| violation!("C16.panic_in_display", "to_string() of the PURL built from {b:?} panicked: {e}"))?;
@@ -1447,6 +1507,11 @@ impl Sim for C16 {
                     } else {
                         None
                     },
+                    edit_in_place: if rng.chance(1, 4) {
+                        Some((rng.below(6), rng.below(8), (*rng.pick(&["", "x", "x86_64", "a&b=c", "%41 +", "é/?#", "0123456789abcdef0123456789abcdef"])).to_owned()))
+                    } else {
+                        None
+                    },
                 })
             } else if roll < 9 {
                 DocSpec::RawString { s: gen::any_input(&mut rng, known), json_seed: if rng.chance(1, 2) { 0 } else { rng.subseed() } }
@@ -1655,6 +1720,15 @@ impl Sim for C16 {
                 }
                 if b.name != "n" {
                     variants.push(BuiltSpec { name: "n".into(), ..b.clone() });
+                }
+                if b.edit_in_place.is_some() {
+                    variants.push(BuiltSpec { edit_in_place: None, ..b.clone() });
+                }
+                if b.direct_qualifier.is_some() {
+                    variants.push(BuiltSpec { direct_qualifier: None, ..b.clone() });
+                }
+                if b.drop_qualifier.is_some() {
+                    variants.push(BuiltSpec { drop_qualifier: None, ..b.clone() });
                 }
                 for v in variants {
                     let mut s = sc.clone();
